@@ -64,6 +64,13 @@ def scenarios(tier, seed):
                 for (a, b) in ((1, 4), (1, 2), (3, 4), (1, n), (1, 8)):
                     out.append(dict(base, mode="rho", inf=[], rec=[], style="rho", val=None, a=a, b=b))
                 out.append(dict(base, mode="default", inf=[], rec=[], style="default", val=None, a=0, b=1))
+                if simruns.supports_R0(sim) and n >= 3:
+                    # the index case is left to the simulator while some nodes start recovered (several seeds:
+                    # the choice must fall on a node that is not recovered)
+                    for rep in range(4):
+                        out.append(dict(base, mode="default", inf=[], rec=[1, n], style="default+recovereds-%d" % rep, val=None, a=0, b=1))
+                    if sim not in ("fast_SIR", "fast_nonMarkov_SIR"):      # those two document that rho excludes initial_recovereds
+                        out.append(dict(base, mode="rho", inf=[], rec=[2], style="rho+recovereds", val=None, a=1, b=2))
                 if tmin == 0:
                     for (sname, val) in (("node-0", 0), ("list", [1]), ("node", n - 1)):
                         out.append(dict(base, mode="both", inf=[], rec=[], style=sname, val=val, a=1, b=2))
